@@ -22,6 +22,9 @@ type DuplicateLabelCheck struct {
 	groups []int
 	seen   []uint64
 	epoch  uint64
+	// acrossSteps makes two series with the same labels an error as soon as
+	// both have produced a sample, at whichever steps.
+	acrossSteps bool
 }
 
 func NewDuplicateLabelCheck(series []labels.Labels) *DuplicateLabelCheck {
@@ -42,10 +45,34 @@ func NewDuplicateLabelCheck(series []labels.Labels) *DuplicateLabelCheck {
 	return &DuplicateLabelCheck{groups: groups, seen: make([]uint64, len(ids))}
 }
 
+// NewDuplicateLabelCheckAcrossSteps is the check for the output of functions
+// over range vectors, which the Prometheus engine evaluates series by series:
+// there two output series with the same labels fail the query even when their
+// samples lie at different steps.
+func NewDuplicateLabelCheckAcrossSteps(series []labels.Labels) *DuplicateLabelCheck {
+	c := NewDuplicateLabelCheck(series)
+	c.acrossSteps = true
+	return c
+}
+
 // Check returns ErrDuplicateLabelSet if two samples of the step vector belong
 // to series with the same labels.
 func (c *DuplicateLabelCheck) Check(vector StepVector) error {
 	if c == nil || c.groups == nil {
+		return nil
+	}
+	if c.acrossSteps {
+		// seen holds the ID+1 of the series that produced the group's samples.
+		for _, id := range vector.SampleIDs {
+			if id >= uint64(len(c.groups)) {
+				continue
+			}
+			group := c.groups[id]
+			if c.seen[group] != 0 && c.seen[group] != id+1 {
+				return ErrDuplicateLabelSet
+			}
+			c.seen[group] = id + 1
+		}
 		return nil
 	}
 	c.epoch++
